@@ -117,6 +117,20 @@ theorem edge_inputs_counterexample :
     ⟨0, 1, 3, [0, 2], some (0, 1)⟩, rfl, rfl, ?_⟩
   refine ⟨by decide, rfl, rfl, by decide, rfl, rfl, rfl, rfl, rfl, rfl, rfl⟩
 
+/-- Why `childOK` demands the parents in `sort_edge` order (the code's invariant; every tree builder
+sorts before `get_child_edge`): handing the SAME two parents over as (anchor, other) —
+`[(0,3), (0,1)]` for the C-vine edge `(1,3 | 0)` — makes `get_conditional_uni` return
+`(F(3 | 0), F(1 | 0))`, the two inputs swapped, so `edge.U[0]`/`U[1]` hold `F(R|L;D)`/`F(L|R;D)`;
+in sorted order `[(0,1), (0,3)]` the inputs are right. -/
+theorem parents_order_counterexample :
+    ∃ (a b e : Edge), e.L = 1 ∧ e.R = 3 ∧ sortedOK a b = false ∧ sortedOK b a = true ∧
+      edgePlan false [a, b] ⟨0, 1, 3, [0], some (0, 1)⟩ = .ok ⟨.uof 0 1, .uof 1 1⟩ ∧
+      slotVar a 1 = 3 ∧ slotVar b 1 = 1 ∧ childOK [a, b] e = false ∧
+      edgePlan false [b, a] e = .ok ⟨.uof 0 1, .uof 1 1⟩ ∧ slotVar b 1 = e.L ∧ slotVar a 1 = e.R ∧
+      childOK [b, a] e = true := by
+  refine ⟨⟨0, 0, 3, [], none⟩, ⟨1, 0, 1, [], none⟩, ⟨0, 1, 3, [0], some (0, 1)⟩, ?_⟩
+  decide
+
 /-- whole-vine form: in a `goodVine` the fit plan exists (no step raises). -/
 theorem fit_plan_total_partial :
     ∀ (ts : List Tree) (prev : Tree), treeWF prev = true → goodFrom prev ts = true →
